@@ -283,12 +283,12 @@ func (l *tcpTransportListener) Listen(ctx context.Context, addr net.Addr) error 
 }
 
 func (l *tcpTransportListener) serve(listener net.Listener) {
+	verifPoint("tcplistener:serve:start")
 	defer close(l.connChan)
 
 	for {
 		conn, err := listener.Accept()
 		if err != nil {
-			verifPoint("tcplistener:serve:accept-failed")
 			select {
 			case <-l.done:
 				return
